@@ -22,6 +22,7 @@ CODES = {1: "Fill returns an error where the model builds a frame (or the other 
          100: "(info) spoofed fields are not what the model derives from the predicted draws"}
 
 FILLER_FUNCS = r"pkg_scan_(arp|icmp|tcp|udp)___(NewPacketFiller|With\w+)|pkg_scan_(arp|icmp|tcp|udp)__PacketFiller_Fill"
+WIRE_QUICK, WIRE_THOROUGH = 6000, 200000
 CONC_QUICK, CONC_THOROUGH = 30000, 1000000
 KIND = {"tcp": 0, "udp": 1, "icmp": 2, "arp": 3}
 TCP_BITS = ["FIN", "SYN", "RST", "PSH", "ACK", "URG", "ECE", "CWR", "NS"]
@@ -90,7 +91,7 @@ def spec_on_impl(o, wide=False):
     if o["kind"] in ("udp", "icmp") and o["has_payload"] and 28 + len(o["payload"]) // 2 > 65535:
         return None        # does not fit an IPv4 datagram: outside the quantifier (the model still has to agree)
     if o["err"]:
-        return "Fill fails on a well-formed request: " + o["err"]
+        return o["err"] if o.get("via") == "wire" else "Fill fails on a well-formed request: " + o["err"]
     f = bytes.fromhex(o["frame"])
     kind = o["kind"]
     src, dst = unhex(o["src_ip"])[-4:], unhex(o["dst_ip"])[-4:]
@@ -282,15 +283,20 @@ def describe(o):
         if o["has_payload"]:
             s += " payload=%dB" % (len(o["payload"]) // 2)
     if o.get("argv"):
-        s += " argv=" + " ".join(o["argv"])
+        s += " argv=" + " ".join(a if a and a == a.strip() else json.dumps(a) for a in o["argv"])
     if o.get("via") == "concurrent":
         s += " [one filler shared by 8 goroutines, %d Fill calls]" % o.get("conc_n", 0)
+    if o.get("via") == "wire":
+        s += " dst=%s dport=%d [frame seen by the writer behind the real multi generator (8 workers) + sender, %d requests]" % (
+            ".".join(str(b) for b in unhex(o["dst_ip"])), o["dport"], o.get("conc_n", 0))
     return s
 
 
 def finding_key(o, why):
     if o.get("via") == "concurrent":
         return "concurrent:%s:%s" % (o["kind"], " ".join(why.split()[:3]))
+    if o.get("via") == "wire":
+        return "wire:%s:%s" % (o["kind"], " ".join(why.split()[:3]))
     if o["kind"] == "udp" and o["iplen"] > 0 and why.startswith("UDP length field is 0"):
         return "udp:iplen-override:udp-length-zero"
     return "%s:%s" % (o["kind"], " ".join(why.split()[:3]))
@@ -366,6 +372,8 @@ def e2e_plan(quick):
         ("icmp-type13", False, ["icmp", "--type", "13", "--code", "0", "--ttl", "37", "--payload", esc3],
          {"kind": "icmp", "typ": 13, "code": 0, "ttl": 37, "has_payload": True, "payload": pl3}, [0]),
         ("arp", False, ["arp"], {"kind": "arp"}, [0]),
+        ("udp-blank-payload", False, ["udp", "-p", "54", "--payload", " x\t"],
+         {"kind": "udp", "has_payload": True, "payload": "207809"}, [54]),
         # every packet command with --srcip / --srcmac overrides (flag parsing -> parseRawOptions -> getScanRange ->
         # request generators -> filler): the frames must carry exactly the overriding addresses
         ("arp-srcip", False, ["arp"] + E2E_OVR, dict({"kind": "arp"}, **E2E_OVR_WANT), [0]),
@@ -389,6 +397,9 @@ def e2e_plan(quick):
             ("vpn-tcp-flags", True, ["tcp", "--flags", "rst,ns", "-p", "9"], {"kind": "tcp", "flags": 260}, [9]),
             ("vpn-udp-iplen", True, ["udp", "-p", "7", "--iplen", "1500"], {"kind": "udp", "iplen": 1500}, [7]),
             ("vpn-icmp-default", True, ["icmp"], {"kind": "icmp"}, [0]),
+            ("icmp-blank-payload", False, ["icmp", "--payload", " "], {"kind": "icmp", "has_payload": True, "payload": "20"}, [0]),
+            ("vpn-udp-blank-payload", True, ["udp", "-p", "55", "--payload", "PING \u00a0"],
+             {"kind": "udp", "has_payload": True, "payload": "50494e4720c2a0"}, [55]),
             ("arp-srcip-only", False, ["arp", "--srcip", "10.55.0.77"], {"kind": "arp", "src_ip": "0a37004d"}, [0]),
             ("vpn-icmp", True, ["icmp", "--type", "13", "--payload", esc3],
              {"kind": "icmp", "typ": 13, "has_payload": True, "payload": pl3}, [0]),
@@ -538,6 +549,15 @@ def run(ctx):
             o["i"] += 700000
         rows = rows + conc
     if have_harness:
+        # the real send path: multi generator (8 workers, pooled buffers) -> sender -> a writer that is busy with the
+        # slice for 10 us and copies it at the end of the call; every written frame must be its request's frame
+        sent = run_harness(ctx, "sendpath.jsonl", ["-seed", ctx.seed + 9, "-wire", WIRE_QUICK if quick else WIRE_THOROUGH])
+        for o in sent:
+            o["i"] += 600000
+        ctx.info.append("send-path stage: %d requests per filler and link mode through NewPacketMultiGenerator + NewSender; "
+                        "%d written frames judged by the oracle and the model" % (WIRE_QUICK if quick else WIRE_THOROUGH, len(sent)))
+        rows = rows + sent
+    if have_harness:
         try:
             wire = e2e(ctx, quick)
         except Exception as ex:      # environment trouble must not look like a property violation
@@ -563,6 +583,7 @@ def run(ctx):
         more = run_harness(ctx, "search.jsonl", ["-seed", ctx.seed + 17, "-n", 6000 if quick else 60000,
                                                  "-maxpayload", 2000, "-hunt", 400000 if quick else 4000000])
         more += run_harness(ctx, "search_concurrent.jsonl", ["-seed", ctx.seed + 23, "-concurrent", 10 * CONC_QUICK])
+        more += run_harness(ctx, "search_sendpath.jsonl", ["-seed", ctx.seed + 29, "-wire", 10 * WIRE_QUICK])
         seen = 0
         for o in more:
             why = spec_on_impl(o)
@@ -607,6 +628,18 @@ def replay(ctx, path):
         bad = [(o, spec_on_impl(o)) for o in rows if spec_on_impl(o)]
         print("replay: one %s filler shared by 8 goroutines, %d frames came back for judgement, %d violate the property"
               % (r["input"]["conc"], len(rows), len(bad)))
+        for o, why in bad[:3]:
+            print("replay verdict: %s: %s (frame=%s)" % (describe(o), why, o["frame"]))
+        if not bad:
+            print("replay verdict: property holds on every frame")
+        return 1 if bad else 0
+    if r["input"].get("via") == "wire":
+        rows = run_harness(ctx, "replay_sendpath.jsonl", ["-seed", r["input"].get("seed", 1), "-wire",
+                                                          max(10 * WIRE_QUICK, r["input"].get("conc_n", 0)),
+                                                          "-conc-only", r["input"]["conc"]])
+        bad = [(o, spec_on_impl(o)) for o in rows if spec_on_impl(o)]
+        print("replay: %s filler behind the real multi generator + sender, %d frames came back for judgement, %d violate "
+              "the property" % (r["input"]["conc"], len(rows), len(bad)))
         for o, why in bad[:3]:
             print("replay verdict: %s: %s (frame=%s)" % (describe(o), why, o["frame"]))
         if not bad:
